@@ -348,7 +348,7 @@ func c20Oracle(info *runInfo, res *verifsim.Result) {
 		}
 		for _, s := range names {
 			t := tasks[s]
-			if t.cancelled != nil && t.cancelled.Seq > sigEv.Seq && t.cancelled.V != wantTerm {
+			if t.cancelled != nil && t.cancelled.Seq > sigEv.Seq && t.cancelled.V != wantTerm && t.cancelled.V != -1 {
 				res.Violate("C20.termflag", "termflag", "task %s observed cancellation at %s and read terminate()=%d, want %d for %s", s, ms(t.cancelled.T), t.cancelled.V, wantTerm, sigEv.S)
 			}
 			if t.cancelled != nil && t.cancelled.Seq > sigEv.Seq && sigSet != nil && t.cancelled.Seq < sigSet.Seq {
